@@ -1,12 +1,484 @@
-/-! Executable model for property C19 (core-only).  Not built yet: the driver answers
-    `unimplemented` so that a check of this property cannot pass by accident. -/
+/-! Executable model for property C19 (core-only): sorting yields an ordered, stable permutation;
+    sort descriptors sort by key list.
+
+    Mirrors (code as it is NOW in /repo, i.e. after `fix: 7831443`):
+      fp.go            CompareToOrdered, Sort, SortSlice, SortOrdered, SortOrderedAscending/Descending
+      sortDescriptor.go ComparableOrdered.CompareTo, ComparableString.CompareTo,
+                        _compareBySortDescriptors, SortBySortDescriptors, SortedListBySortDescriptors,
+                        SortDescriptorsBuilder.ToSortedList / Sort
+      stream.go / streamForInterface.go   Sort, SortByIndex
+
+    ASSUMPTION (modelled, not verified): `sort.SliceStable(data, less)` is modelled by core
+    `List.mergeSort` with `le a b := !less b a`.  Contract used: for a comparator that is a strict
+    weak order `sort.SliceStable` produces the ordered, stable permutation of its input.  That
+    permutation is unique (`C19_sort_unique` in Props/C19.lean), so every correct stable sort agrees
+    with `sortBy`.  The harness only uses comparators that are strict weak orders. -/
 namespace FpgoVerif.C19
 
-/-- one protocol case line in, one canonical observation line out -/
-def handle (_line : String) : String := "unimplemented"
+/-! ## `sort.SliceStable` -/
 
-/-- spec-level oracle: given the case line and the observation printed by the real code, decide
-    whether the *property* is violated (`violation <why>`) or not (`allowed <why>`). -/
-def judge (_line _impl : String) : String := "violation model-and-implementation-disagree"
+/-- `sort.SliceStable(l, less)` — see the assumption in the file header. -/
+def sortBy {α : Type} (less : α → α → Bool) (l : List α) : List α :=
+  l.mergeSort (fun a b => !less b a)
+
+/-! ## fp.go -/
+
+/-- `CompareToOrdered(a, b)`: `if b > a {1} else if b < a {-1} else 0`; `lt` is Go's `<` of the
+    instantiated `Ordered` type (`b > a` is `lt a b`). -/
+def compareToOrdered {κ : Type} (lt : κ → κ → Bool) (a b : κ) : Int :=
+  if lt a b then 1 else if lt b a then -1 else 0
+
+/-- `Sort(fn, input)`: `sort.SliceStable(input, func(p, n) { return fn(input[p], input[n]) })`,
+    in place: the returned list is the content of `input` afterwards. -/
+def sort {α : Type} (fn : α → α → Bool) (input : List α) : List α := sortBy fn input
+
+/-- `SortSlice(fn, input...)`: `Sort(fn, input); return input`. -/
+def sortSlice {α : Type} (fn : α → α → Bool) (input : List α) : List α := sort fn input
+
+/-- `SortOrdered(ascending, input...)`: comparator `CompareToOrdered(a, b) > 0` resp. `< 0`. -/
+def sortOrdered {κ : Type} (lt : κ → κ → Bool) (ascending : Bool) (input : List κ) : List κ :=
+  if ascending then sort (fun a b => decide (compareToOrdered lt a b > 0)) input
+  else sort (fun a b => decide (compareToOrdered lt a b < 0)) input
+
+def sortOrderedAscending {κ : Type} (lt : κ → κ → Bool) (input : List κ) : List κ :=
+  sortOrdered lt true input
+
+def sortOrderedDescending {κ : Type} (lt : κ → κ → Bool) (input : List κ) : List κ :=
+  sortOrdered lt false input
+
+/-! ## keys: the dynamic types a `Comparable[interface{}]` key can have -/
+
+/-- Go's `<` on strings: bytewise lexicographic. -/
+def bytesLt : List Nat → List Nat → Bool
+  | [], [] => false
+  | [], _ :: _ => true
+  | _ :: _, [] => false
+  | a :: as, b :: bs => decide (a < b) || (a == b && bytesLt as bs)
+
+/-- `strings.Compare(a, b)`: `0` if `a == b`, `-1` if `a < b`, `+1` otherwise. -/
+def stringsCompare (a b : List Nat) : Int :=
+  if a == b then 0 else if bytesLt a b then -1 else 1
+
+def intLt (a b : Int) : Bool := decide (a < b)
+
+/-- A non-nil sort key with its dynamic type. -/
+inductive Key
+  | oi (v : Int)        -- ComparableOrdered[int]
+  | os (s : List Nat)   -- ComparableOrdered[string]  (bytes)
+  | cs (s : List Nat)   -- ComparableString           (bytes)
+deriving DecidableEq, Repr
+
+def Key.rank : Key → Nat
+  | .oi _ => 0 | .os _ => 1 | .cs _ => 2
+
+/-- `key1.CompareTo(key2)`, dispatched on the dynamic type of the receiver.
+    * `ComparableOrdered[T].CompareTo(input)  = CompareToOrdered(input.Val, obj.Val)`
+    * `ComparableString.CompareTo(input)      = strings.Compare(obj.Val, input.Val)`
+    Keys of different dynamic types make the type assertion in Go panic; one descriptor always yields
+    keys of one type (outside the property's quantifier otherwise) — the model stays total by
+    ordering different types by rank. -/
+def Key.compareTo : Key → Key → Int
+  | .oi self, .oi other => compareToOrdered intLt other self
+  | .os self, .os other => compareToOrdered bytesLt other self
+  | .cs self, .cs other => stringsCompare self other
+  | k1, k2 => if k1.rank < k2.rank then -1 else 1
+
+/-! ## sortDescriptor.go -/
+
+/-- What `_compareBySortDescriptors` sees of a `SortDescriptor[T]`: `TransformedBy()` (key extractor,
+    `none` = the transformer returned nil) and `IsAscending()`.  A `FieldSortDescriptor` is the
+    descriptor whose transformer reads the named field by reflection. -/
+structure Desc (α : Type) where
+  key : α → Option Key
+  asc : Bool
+
+/-- `_compareBySortDescriptors(item1, item2, sortDescriptors, descriptorIndex)` with
+    `d = sortDescriptors[descriptorIndex]`, `rest = sortDescriptors[descriptorIndex+1:]`
+    (`_hasNextDescriptor` ⇔ `rest ≠ []`). -/
+def compareBySortDescriptors {α : Type} (d : Desc α) (rest : List (Desc α)) (item1 item2 : α) : Int :=
+  let key1 := d.key item1
+  let key2 := d.key item2
+  let result : Int :=
+    match key1, key2 with
+    | some k1, some k2 => if d.asc then k1.compareTo k2 else k2.compareTo k1
+    | _, _ => 0
+  if key1.isSome && key2.isNone then (if d.asc then 1 else -1)
+  else if key1.isNone && key2.isSome then (if d.asc then -1 else 1)
+  else
+    match rest with
+    | d' :: rest' => if result == 0 then compareBySortDescriptors d' rest' item1 item2 else result
+    | [] => result
+
+/-- the comparator of `SortBySortDescriptors`: `_compareBySortDescriptors(i1, i2, ds, 0) < 0`.
+    (An empty descriptor list makes Go index out of range as soon as the comparator is called; the
+    property quantifies over stacks of 1..3 descriptors.  The model answers `false`.) -/
+def descLess {α : Type} (ds : List (Desc α)) (item1 item2 : α) : Bool :=
+  match ds with
+  | [] => false
+  | d :: rest => decide (compareBySortDescriptors d rest item1 item2 < 0)
+
+/-- The PINNED commit (c07da28), kept only for the refutation theorem `C19_pinned_refuted`:
+    `key1.CompareTo(key2)` was evaluated and its result discarded (`result` stayed 0), and the comparator
+    was `_compareBySortDescriptors(…) >= 0`. -/
+def compareBySortDescriptorsPinned {α : Type} (d : Desc α) (rest : List (Desc α)) (item1 item2 : α) : Int :=
+  let key1 := d.key item1
+  let key2 := d.key item2
+  let result : Int := 0
+  if key1.isSome && key2.isNone then (if d.asc then 1 else -1)
+  else if key1.isNone && key2.isSome then (if d.asc then -1 else 1)
+  else
+    match rest with
+    | d' :: rest' => if result == 0 then compareBySortDescriptorsPinned d' rest' item1 item2 else result
+    | [] => result
+
+def descLessPinned {α : Type} (ds : List (Desc α)) (item1 item2 : α) : Bool :=
+  match ds with
+  | [] => false
+  | d :: rest => decide (compareBySortDescriptorsPinned d rest item1 item2 ≥ 0)
+
+/-- `SortBySortDescriptors(ds, input)` / `builder.Sort(input)`: in place. -/
+def sortBySortDescriptors {α : Type} (ds : List (Desc α)) (input : List α) : List α :=
+  sort (descLess ds) input
+
+/-! ### a minimal slice heap, for "without modifying the input" -/
+
+/-- a Go slice header: backing array id, offset, length, capacity -/
+structure Slice where
+  arr : Nat
+  off : Nat
+  len : Nat
+  cap : Nat
+
+/-- the backing arrays -/
+abbrev Heap (α : Type) := List (List α)
+
+/-- the elements a slice denotes -/
+def Heap.read {α : Type} (h : Heap α) (s : Slice) : List α :=
+  ((h.getD s.arr []).drop s.off).take s.len
+
+/-- overwrite the `s.len` elements of slice `s` by `xs` -/
+def Heap.write {α : Type} (h : Heap α) (s : Slice) (xs : List α) : Heap α :=
+  let a := h.getD s.arr []
+  h.set s.arr (a.take s.off ++ xs ++ a.drop (s.off + s.len))
+
+/-- `s[:0:0]` -/
+def Slice.emptyNoCap (s : Slice) : Slice := { s with len := 0, cap := 0 }
+
+/-- `s[:0]` — capacity retained; NOT what the code does, used only to show that the capacity matters -/
+def Slice.emptyKeepCap (s : Slice) : Slice := { s with len := 0 }
+
+/-- `append(s, xs...)`: in place when the capacity suffices, else a fresh backing array (Go's growth
+    policy only makes the new capacity larger, which nothing here depends on). -/
+def Heap.append {α : Type} (h : Heap α) (s : Slice) (xs : List α) : Heap α × Slice :=
+  if s.len + xs.length ≤ s.cap then
+    (h.write ⟨s.arr, s.off + s.len, xs.length, 0⟩ xs, { s with len := s.len + xs.length })
+  else
+    (h ++ [h.read s ++ xs], ⟨h.length, 0, s.len + xs.length, s.len + xs.length⟩)
+
+/-- `Sort(fn, s)` on the heap: in place -/
+def sortH {α : Type} (fn : α → α → Bool) (h : Heap α) (s : Slice) : Heap α :=
+  h.write s (sort fn (h.read s))
+
+/-- `SortedListBySortDescriptors(ds, input...)`:
+    `result := append(input[:0:0], input...); SortBySortDescriptors(ds, result); return result` -/
+def sortedListH {α : Type} (ds : List (Desc α)) (h : Heap α) (input : Slice) : Heap α × Slice :=
+  let (h, result) := h.append input.emptyNoCap (h.read input)
+  (sortH (descLess ds) h result, result)
+
+/-- the aliasing variant `append(input[:0], input...)` (for the theorem that it WOULD modify the input) -/
+def sortedListAliasH {α : Type} (ds : List (Desc α)) (h : Heap α) (input : Slice) : Heap α × Slice :=
+  let (h, result) := h.append input.emptyKeepCap (h.read input)
+  (sortH (descLess ds) h result, result)
+
+/-- `SortedListBySortDescriptors(ds, input...)` / `builder.ToSortedList(input...)` on a heap that holds
+    just the caller's slice.  Returns (result, content of `input` afterwards). -/
+def sortedListBySortDescriptors {α : Type} (ds : List (Desc α)) (input : List α) : List α × List α :=
+  let s : Slice := ⟨0, 0, input.length, input.length⟩
+  let (h, result) := sortedListH ds [input] s
+  (h.read result, h.read s)
+
+/-! ## stream.go / streamForInterface.go -/
+
+/-- `Stream.Sort(fn)`: `result := Clone(); Sort(fn, *result)`.  (result, receiver afterwards) -/
+def streamSort {α : Type} (fn : α → α → Bool) (self : List α) : List α × List α :=
+  let result := self
+  (sort fn result, self)
+
+/-- `Stream.SortByIndex(fn)`, `fn(i, j)` an index comparator over the receiver (the harness passes
+    `fn(i, j) = less((*s)[i], (*s)[j])`, evaluated on the receiver's current storage — the contract of
+    `sort.SliceStable`): the receiver is sorted in place, the sorted content is cloned as the result
+    and the old content is copied back.  (result, receiver afterwards) -/
+def streamSortByIndex {α : Type} (less : α → α → Bool) (self : List α) : List α × List α :=
+  let oldValue := self
+  let self := sortBy less self
+  let result := self
+  let self := oldValue
+  (result, self)
+
+/-! ## Spec: what the property demands -/
+
+/-- strict weak order (irreflexive, transitive, negatively transitive) -/
+def StrictWeak {α : Type} (less : α → α → Bool) : Prop :=
+  (∀ a, less a a = false) ∧ (∀ a b c, less a b = true → less b c = true → less a c = true) ∧
+  (∀ a b c, less a b = true → less a c = true ∨ less c b = true)
+
+/-- the comparator does not distinguish `a` and `b` -/
+def equivBy {α : Type} (less : α → α → Bool) (a b : α) : Bool := !less a b && !less b a
+
+/-- natural order of non-nil keys -/
+def Key.lt : Key → Key → Bool
+  | .oi a, .oi b => decide (a < b)
+  | .os a, .os b => bytesLt a b
+  | .cs a, .cs b => bytesLt a b
+  | k1, k2 => decide (k1.rank < k2.rank)
+
+/-- natural order of keys, a nil key before every non-nil key -/
+def optLt : Option Key → Option Key → Bool
+  | none, some _ => true
+  | some a, some b => a.lt b
+  | _, _ => false
+
+/-- natural order for an ascending descriptor, reversed for a descending one -/
+def Desc.keyLt {α : Type} (d : Desc α) (x y : α) : Bool :=
+  if d.asc then optLt (d.key x) (d.key y) else optLt (d.key y) (d.key x)
+
+/-- lexicographic order by the descriptors' keys, later descriptors breaking ties of earlier ones -/
+def lexLt {α : Type} : List (Desc α) → α → α → Bool
+  | [], _, _ => false
+  | d :: ds, x, y => d.keyLt x y || (d.key x == d.key y && lexLt ds x y)
+
+def pairwiseB {α : Type} (r : α → α → Bool) : List α → Bool
+  | [] => true
+  | a :: t => t.all (r a) && pairwiseB r t
+
+/-- `out` (elements tagged with their input position) is a permutation of an input of length `n` -/
+def isPermB {α : Type} (n : Nat) (out : List (Nat × α)) : Bool :=
+  out.length == n && (List.range n).all (fun i => (out.filter (fun p => p.1 == i)).length == 1)
+
+/-- no element precedes one that the comparator places strictly before it -/
+def orderedB {α : Type} (less : α → α → Bool) (out : List (Nat × α)) : Bool :=
+  pairwiseB (fun a b => !less b.2 a.2) out
+
+/-- elements the comparator does not distinguish keep their input order -/
+def stableB {α : Type} (less : α → α → Bool) (out : List (Nat × α)) : Bool :=
+  pairwiseB (fun a b => !(equivBy less a.2 b.2) || decide (a.1 < b.1)) out
+
+/-! ## protocol -/
+
+/-- harness record: four key fields (A int-ordered, B ComparableString, C int-ordered,
+    D ComparableOrdered[string]); the payload id is the input position. -/
+structure Rec where
+  a : Option Int
+  b : Option (List Nat)
+  c : Option Int
+  d : Option (List Nat)
+deriving DecidableEq, Repr
+
+def bytesOf (s : String) : List Nat := s.toList.map Char.toNat
+
+def parseIntKey (s : String) : Option (Option Int) :=
+  if s = "_" then some none else (s.toInt?).map some
+
+def parseStrKey (s : String) : Option (Option (List Nat)) :=
+  if s = "_" then some none
+  else if s.startsWith "=" then some (some (bytesOf (s.drop 1).toString))
+  else none
+
+def parseRec (s : String) : Option Rec :=
+  match s.splitOn "," with
+  | [a, b, c, d] =>
+    match parseIntKey a, parseStrKey b, parseIntKey c, parseStrKey d with
+    | some a, some b, some c, some d => some ⟨a, b, c, d⟩
+    | _, _, _, _ => none
+  | _ => none
+
+def allSome {β : Type} : List (Option β) → Option (List β)
+  | [] => some []
+  | none :: _ => none
+  | some x :: t => (allSome t).map (x :: ·)
+
+def splitBody (body : String) : List String :=
+  ((body.splitOn ";").map (fun t => t.trimAscii.toString)).filter (· ≠ "")
+
+def fieldKey (f : String) (r : Rec) : Option Key :=
+  match f with
+  | "A" => r.a.map Key.oi
+  | "B" => r.b.map Key.cs
+  | "C" => r.c.map Key.oi
+  | "D" => r.d.map Key.os
+  | _ => none
+
+/-- one descriptor token `fA+` / `tB-`: f = field-name descriptor, t = transformer descriptor -/
+def parseDesc (tok : String) : Option (Desc Rec) :=
+  match tok.toList with
+  | [k, f, dir] =>
+    if (k = 'f' || k = 't') && (f = 'A' || f = 'B' || f = 'C' || f = 'D') && (dir = '+' || dir = '-') then
+      some ⟨fieldKey (String.singleton f), dir = '+'⟩
+    else none
+  | _ => none
+
+def parseStack (s : String) : Option (List (Desc Rec)) :=
+  allSome ((s.splitOn ",").map parseDesc)
+
+def getA (r : Rec) : Int := r.a.getD 0
+def getB (r : Rec) : List Nat := r.b.getD []
+
+/-- the harness's comparator family for Sort/SortSlice/Stream.Sort/SortByIndex (all strict weak) -/
+def cmpByName (name : String) : Option (Rec → Rec → Bool) :=
+  match name with
+  | "a<" => some (fun x y => decide (getA x < getA y))
+  | "a>" => some (fun x y => decide (getA x > getA y))
+  | "am" => some (fun x y => decide (getA x % 2 < getA y % 2))
+  | "b<" => some (fun x y => bytesLt (getB x) (getB y))
+  | "ab" => some (fun x y => decide (getA x < getA y) || (getA x == getA y && bytesLt (getB y) (getB x)))
+  | "no" => some (fun _ _ => false)
+  | _ => none
+
+def showIds (l : List (Nat × Rec)) : String :=
+  "[" ++ " ".intercalate (l.map (fun p => toString p.1)) ++ "]"
+
+/-- tag every element with its input position (the payload id the harness gives a record) -/
+def tag {β : Type} (l : List β) : List (Nat × β) := (l.zipIdx).map (fun p => (p.2, p.1))
+
+/-- a comparator on elements, applied to tagged elements (the tag is invisible to it) -/
+def liftLess {β : Type} (less : β → β → Bool) (x y : Nat × β) : Bool := less x.2 y.2
+
+/-- what the model answers for a comparator sort: the input positions in output order -/
+def modelIds {β : Type} (less : β → β → Bool) (recs : List β) : List Nat :=
+  (sort (liftLess less) (tag recs)).map (·.1)
+
+def liftDesc (d : Desc Rec) : Desc (Nat × Rec) := ⟨fun p => d.key p.2, d.asc⟩
+
+def showVal (v : Key) : String :=
+  match v with
+  | .oi i => toString i
+  | .os s => "=" ++ String.ofList (s.map Char.ofNat)
+  | .cs s => "=" ++ String.ofList (s.map Char.ofNat)
+
+/-- values of an `O` case: ints or strings -/
+def parseVals (ty : String) (toks : List String) : Option (List Key) :=
+  if ty = "i" then allSome (toks.map (fun t => (t.toInt?).map Key.oi))
+  else if ty = "s" then
+    allSome (toks.map (fun t => if t.startsWith "=" then some (Key.os (bytesOf (t.drop 1).toString)) else none))
+  else none
+
+def showVals (l : List Key) : String := "[" ++ " ".intercalate (l.map showVal) ++ "]"
+
+inductive Case
+  | desc (api : String) (ds : List (Desc Rec)) (recs : List Rec)
+  | cmp (api : String) (less : Rec → Rec → Bool) (recs : List Rec)
+  | ord (api : String) (vals : List Key)
+
+def parseCase (line : String) : Option Case :=
+  match line.splitOn ":" with
+  | [head, body] =>
+    let toks := splitBody body
+    match (head.trimAscii.toString).splitOn " " with
+    | ["D", api, stack] =>
+      match parseStack stack, allSome (toks.map parseRec) with
+      | some ds, some recs =>
+        if ds.length ≥ 1 && (api = "sl" || api = "sb" || api = "tl" || api = "bs" || api = "slp" || api = "bsp")
+        then some (.desc api ds recs) else none
+      | _, _ => none
+    | ["C", api, cmp] =>
+      match cmpByName cmp, allSome (toks.map parseRec) with
+      | some less, some recs =>
+        if api = "sort" || api = "slice" || api = "ssort" || api = "sidx" || api = "isort" || api = "iidx"
+        then some (.cmp api less recs) else none
+      | _, _ => none
+    | ["O", api, ty] =>
+      match parseVals ty toks with
+      | some vals => if api = "asc" || api = "desc" || api = "so+" || api = "so-" then some (.ord api vals) else none
+      | none => none
+    | _ => none
+  | _ => none
+
+/-- the model's answer: the sequence of input positions in output order (`D`, `C`), or the values (`O`);
+    `mutated` is appended when an input that must stay intact changed. -/
+def runCase : Case → String
+  | .desc api ds recs =>
+    let input := tag recs
+    let lds := ds.map liftDesc
+    if api = "sl" || api = "tl" || api = "slp" then
+      let (result, after) := sortedListBySortDescriptors lds input
+      showIds result ++ (if after.map (·.1) == input.map (·.1) then "" else " mutated")
+    else showIds (sortBySortDescriptors lds input)
+  | .cmp api less recs =>
+    let input := tag recs
+    if api = "sort" then showIds (sort (liftLess less) input)
+    else if api = "slice" then showIds (sortSlice (liftLess less) input)
+    else if api = "ssort" || api = "isort" then showIds (streamSort (liftLess less) input).1
+    else showIds (streamSortByIndex (liftLess less) input).1
+  | .ord api vals =>
+    if api = "asc" then showVals (sortOrderedAscending Key.lt vals)
+    else if api = "desc" then showVals (sortOrderedDescending Key.lt vals)
+    else showVals (sortOrdered Key.lt (api = "so+") vals)
+
+def handle (line : String) : String :=
+  match parseCase line with
+  | some c => runCase c
+  | none => "bad-case"
+
+/-! ## judge: the property's own statement, evaluated on the implementation's observation -/
+
+def parseIds (obs : String) : Option (List Nat × Bool) :=
+  let (obs, mutated) :=
+    if obs.endsWith " mutated" then ((obs.dropEnd 8).toString, true) else (obs, false)
+  if obs.startsWith "[" && obs.endsWith "]" then
+    let inner := ((obs.drop 1).toString.dropEnd 1).toString
+    let toks := (inner.splitOn " ").filter (· ≠ "")
+    (allSome (toks.map String.toNat?)).map (fun ids => (ids, mutated))
+  else none
+
+def lookupAll {β : Type} (recs : List β) (ids : List Nat) : Option (List (Nat × β)) :=
+  allSome (ids.map (fun i => (recs[i]?).map (fun r => (i, r))))
+
+/-- the oracle's three checks as one Boolean -/
+def acceptsB {β : Type} (less : β → β → Bool) (recs : List β) (ids : List Nat) : Bool :=
+  match lookupAll recs ids with
+  | none => false
+  | some out => isPermB recs.length out && orderedB less out && stableB less out
+
+def verdict {β : Type} (less : β → β → Bool) (recs : List β) (ids : List Nat) : String :=
+  match lookupAll recs ids with
+  | none => "violation result is not a permutation of the input (unknown element)"
+  | some out =>
+    if !isPermB recs.length out then "violation result is not a permutation of the input"
+    else if !orderedB less out then "violation result is not ordered by the comparator"
+    else if !stableB less out then "violation result is not stable"
+    else "allowed ordered stable permutation"
+
+def countKey (l : List Key) (k : Key) : Nat := (l.filter (· == k)).length
+
+def judgeCase (c : Case) (impl : String) : String :=
+  match c with
+  | .desc api ds recs =>
+    match parseIds impl with
+    | none => "violation no sorted list returned: " ++ impl
+    | some (ids, mutated) =>
+      if mutated && (api = "sl" || api = "tl" || api = "slp") then "violation the input was modified"
+      else verdict (lexLt ds) recs ids
+  | .cmp _ less recs =>
+    match parseIds impl with
+    | none => "violation no sorted list returned: " ++ impl
+    | some (ids, _) => verdict less recs ids
+  | .ord api vals =>
+    -- plain values: equal values are indistinguishable, stability is not observable
+    let want : Key → Key → Bool := if api = "asc" || api = "so+" then Key.lt else (fun a b => Key.lt b a)
+    let ty := match vals with | .os _ :: _ => "s" | _ => "i"
+    if !(impl.startsWith "[" && impl.endsWith "]") then "violation no sorted list returned: " ++ impl else
+    let inner := ((impl.drop 1).toString.dropEnd 1).toString
+    match parseVals ty ((inner.splitOn " ").filter (· ≠ "")) with
+    | none => "violation no sorted list returned: " ++ impl
+    | some out =>
+      if out.length != vals.length || !(vals.all (fun k => countKey out k == countKey vals k)) then
+        "violation result is not a permutation of the input"
+      else if !pairwiseB (fun a b => !want b a) out then "violation result is not ordered"
+      else "allowed ordered permutation"
+
+def judge (line impl : String) : String :=
+  match parseCase line with
+  | some c => judgeCase c impl
+  | none => "allowed bad-case"
 
 end FpgoVerif.C19
